@@ -12,17 +12,51 @@ from vf.core import Ctx, Machinery
 
 
 def _record(args: Tuple[str, str, dict]) -> dict:
+    import signal
+    from vf import simnet
     modname, clsname, sc = args
     mod = importlib.import_module(modname)
-    return getattr(mod, clsname)(sc).run()
+
+    def on_alarm(signum: int, frame: Any) -> None:
+        raise simnet.ScenarioTimeout('scenario %s exceeded the wall-clock budget' % sc.get('id'))
+    old = signal.signal(signal.SIGALRM, on_alarm)
+    signal.setitimer(signal.ITIMER_REAL, SCENARIO_WALL_S)
+    try:
+        return getattr(mod, clsname)(sc).run()
+    finally:
+        signal.setitimer(signal.ITIMER_REAL, 0)
+        signal.signal(signal.SIGALRM, old)
+
+
+SCENARIO_WALL_S = 20          # a scenario normally takes milliseconds
+MAX_ABORTED = 3               # a few runaway scenarios are enough to report; do not burn hours on the rest
+
+
+def _aborted(tr: dict) -> bool:
+    ev = tr.get('events') or []
+    return bool(ev) and ev[-1].get('ev') == 'exc' and ev[-1].get('what') == 'Runaway'
 
 
 def record_all(modname: str, clsname: str, scenarios: List[dict], procs: int) -> List[dict]:
     jobs = [(modname, clsname, sc) for sc in scenarios]
+    out: List[dict] = []
+    bad = 0
     if procs <= 1 or len(jobs) < 32:
-        return [_record(j) for j in jobs]
+        for j in jobs:
+            tr = _record(j)
+            out.append(tr)
+            bad += _aborted(tr)
+            if bad >= MAX_ABORTED:
+                break
+        return out
     with mp.get_context('fork').Pool(procs) as pool:
-        return pool.map(_record, jobs, chunksize=4)
+        for tr in pool.imap(_record, jobs, chunksize=2):
+            out.append(tr)
+            bad += _aborted(tr)
+            if bad >= MAX_ABORTED:
+                pool.terminate()
+                break
+    return out
 
 
 def validate(module: str, traces: List[dict], common: Dict[str, Any], batch: int = 300, par: int = 4,
